@@ -315,6 +315,9 @@ class Check:
         # a ledger clause that this run did not generate, although its function was analysed, means the
         # function's control flow no longer reaches that obligation: undischarged, not a checker error
         funcs_now = {ob.func for ob in self.obs}
+        # a nested function is analysed through its enclosing function
+        funcs_now |= {k.split(" :: ")[0] for k in ledger["clauses"]
+                      if ".<locals>." in k.split(" :: ")[0] and k.split(" :: ")[0].split(".<locals>.")[0] in funcs_now}
         self.missing_handled = set()
         if not update:
             for k in ledger["clauses"]:
